@@ -16,7 +16,10 @@
 //!           independently re-encodes the input and evaluates the property's clauses on the fresh
 //!           blocks (oracle lines).
 //!
-//! Result line: `ok <n> <shape> <portable> <hashes>` (shape: per block mode digits, see `shape`).
+//! Result line: `ok <n> <shape> <portable> <hashes> <pred> <b7>` (shape: per block mode digits, see `shape`;
+//! pred: for RGBA8 inputs the bytes of each emitted block at the places the discrete encoder model predicts,
+//! `offset:hex` pieces, see `predicted_pieces`; b7: for BC7 / RGBA8 / no dithering the header fields of each emitted
+//! block, see `bc7_obs` — the model appends `@` and the constraint of its discrete rules, tools/propcfg/C13.py `equal`).
 use crate::common::{toks, Rng};
 use dds::{
     decode, encode, Channels, ColorFormat, CompressionQuality, DecodeOptions, Dithering, EncodeOptions,
@@ -763,39 +766,147 @@ fn oracle(f: F, o: Opts, img: &Img, enc: &[u8], wit: Option<&[u8]>, msgs: &mut V
     }
 }
 
-/// (offset, length) of the pieces of a single-colour block that the discrete encoder model predicts
-/// (availability rule only; the VALUES are the model's, compared in the tie)
-fn predicted_pieces(f: F, q: char, c: [u8; 4]) -> Vec<(usize, usize)> {
-    let corner = |e: u8| e == 0 || e == 255;
-    let bc4: Vec<(usize, usize)> = if q == 'U' { vec![] } else { vec![(0, 8)] };
-    let col = |ok: bool| -> Vec<(usize, usize)> { if ok { vec![(8, 8)] } else { vec![] } };
-    let [r, g, b, a] = c;
-    let c3 = corner(r) && corner(g) && corner(b);
-    match f {
-        F::Bc7 => vec![(0, 16)],
-        F::Bc1 => {
-            if a >= 128 && !c3 {
+/// (offset, length) of the pieces of a block that the discrete encoder model (`Enc13.predictBlock`) predicts —
+/// availability rule only; the VALUES are the model's, compared in the tie.  `px`: the RGBA8 pixels of the block
+/// that lie inside the image (the padding of a partial block repeats pixels of the block, so "constant over the
+/// in-image pixels" is "constant over the 16 encoded pixels").
+fn predicted_pieces(f: F, o: Opts, px: &[[u8; 4]]) -> Vec<(usize, usize)> {
+    let q = o.q;
+    let plain = o.d == 'N';
+    let single = px.iter().all(|p| *p == px[0]);
+    let chan = |c: usize| -> Option<u8> {
+        if px.iter().all(|p| p[c] == px[0][c]) {
+            Some(px[0][c])
+        } else {
+            None
+        }
+    };
+    // --- single-coloured block, no dithering (Enc13.predictSingle)
+    let mut pieces: Vec<(usize, usize)> = if single && plain {
+        let corner = |e: u8| e == 0 || e == 255;
+        let bc4: Vec<(usize, usize)> = if q == 'U' { vec![] } else { vec![(0, 8)] };
+        let col = |ok: bool| -> Vec<(usize, usize)> { if ok { vec![(8, 8)] } else { vec![] } };
+        let [r, g, b, a] = px[0];
+        let c3 = corner(r) && corner(g) && corner(b);
+        match f {
+            F::Bc7 => vec![(0, 16)],
+            F::Bc1 => {
+                if a >= 128 && !c3 {
+                    vec![]
+                } else {
+                    vec![(0, 8)]
+                }
+            }
+            F::Bc2 => col(c3),
+            F::Bc2p => col(a == 255 && c3),
+            F::Bc3 => [bc4, col(c3)].concat(),
+            F::Bc3p => [bc4, col(a == 255 && c3)].concat(),
+            F::Rxgb => [bc4, col(corner(g) && corner(b))].concat(),
+            F::Bc3n => [bc4, col(corner(g))].concat(),
+            F::Bc4u => bc4,
+            F::Bc5u => {
+                if q == 'U' {
+                    vec![]
+                } else {
+                    vec![(0, 8), (8, 8)]
+                }
+            }
+            F::Bc4s | F::Bc5s => vec![],
+        }
+    } else {
+        vec![]
+    };
+    // --- pieces that do not need a single-coloured block
+    // BC4-type UNORM block of a constant channel
+    let u = |o8: usize, c: usize| -> Vec<(usize, usize)> {
+        if chan(c).is_some() && plain && q != 'U' {
+            vec![(o8, 8)]
+        } else {
+            vec![]
+        }
+    };
+    // BC4-type SNORM block of a constant channel on the `closest` branch: the 8-bit values 0 and 255
+    let sn = |o8: usize, c: usize| -> Vec<(usize, usize)> {
+        if matches!(chan(c), Some(0) | Some(255)) {
+            vec![(o8, 8)]
+        } else {
+            vec![]
+        }
+    };
+    let extra: Vec<(usize, usize)> = match f {
+        // the eight explicit alpha bytes of every block unless alpha is dithered
+        F::Bc2 | F::Bc2p => {
+            if o.dith_alpha() {
                 vec![]
             } else {
                 vec![(0, 8)]
             }
         }
-        F::Bc2 => col(c3),
-        F::Bc2p => col(a == 255 && c3),
-        F::Bc3 => [bc4, col(c3)].concat(),
-        F::Bc3p => [bc4, col(a == 255 && c3)].concat(),
-        F::Rxgb => [bc4, col(corner(g) && corner(b))].concat(),
-        F::Bc3n => [bc4, col(corner(g))].concat(),
-        F::Bc4u => bc4,
-        F::Bc5u => {
-            if q == 'U' {
-                vec![]
-            } else {
-                vec![(0, 8), (8, 8)]
-            }
+        F::Bc3 | F::Bc3p => u(0, 3),
+        F::Rxgb | F::Bc3n | F::Bc4u => u(0, 0),
+        F::Bc5u => [u(0, 0), u(8, 1)].concat(),
+        F::Bc4s => sn(0, 0),
+        F::Bc5s => [sn(0, 0), sn(8, 1)].concat(),
+        F::Bc1 | F::Bc7 => vec![],
+    };
+    for e in extra {
+        if !pieces.iter().any(|p| p.0 == e.0) {
+            pieces.push(e);
         }
-        F::Bc4s | F::Bc5s => vec![],
     }
+    pieces.sort();
+    pieces
+}
+
+// ---------------------------------------------------------------------------------------------
+// BC7 header fields of an emitted block, read with a bit reader written from the format specification
+// (independent of the Lean model's `Bc7Spec.rd` / `Enc13.bc7Fields`, which the driver uses)
+
+/// per mode: subsets, partition bits, rotation bits, index-selection bits, colour bits, alpha bits,
+/// p-bits per endpoint (1/0), p-bits per subset (1/0)
+const BC7_MODES: [[u32; 8]; 8] = [
+    [3, 4, 0, 0, 4, 0, 1, 0],
+    [2, 6, 0, 0, 6, 0, 0, 1],
+    [3, 6, 0, 0, 5, 0, 0, 0],
+    [2, 6, 0, 0, 7, 0, 1, 0],
+    [1, 0, 2, 1, 5, 6, 0, 0],
+    [1, 0, 2, 0, 7, 8, 0, 0],
+    [1, 0, 0, 0, 7, 7, 1, 0],
+    [2, 6, 0, 0, 5, 5, 1, 0],
+];
+
+/// `mode.partition.rotation.selector.pbits.alpha-fields` (`_` = the mode has no such field; `8` = reserved mode)
+fn bc7_obs(b: &[u8]) -> String {
+    let mut v: u128 = 0;
+    for (i, x) in b.iter().enumerate().take(16) {
+        v |= (*x as u128) << (8 * i);
+    }
+    let mode = (0..8).find(|m| (v >> m) & 1 == 1);
+    let mode = match mode {
+        Some(m) => m as usize,
+        None => return "8".to_string(),
+    };
+    let [ns, pb, rb, isb, cb, ab, epb, spb] = BC7_MODES[mode];
+    let mut pos = mode as u32 + 1;
+    let mut read = |n: u32| -> u32 {
+        let r = if n == 0 { 0 } else { ((v >> pos) & ((1u128 << n) - 1)) as u32 };
+        pos += n;
+        r
+    };
+    let part = read(pb);
+    let rot = read(rb);
+    let sel = read(isb);
+    for _ in 0..3 * 2 * ns {
+        read(cb);
+    }
+    let alpha: Vec<String> = if ab == 0 { vec![] } else { (0..2 * ns).map(|_| read(ab).to_string()).collect() };
+    let np = if epb == 1 { 2 * ns } else if spb == 1 { ns } else { 0 };
+    let pbits: String = (0..np).map(|_| if read(1) == 1 { '1' } else { '0' }).collect();
+    format!(
+        "{mode}.{part}.{rot}.{sel}.{}.{}",
+        if pbits.is_empty() { "_".to_string() } else { pbits },
+        if alpha.is_empty() { "_".to_string() } else { alpha.join(",") }
+    )
 }
 
 // ---------------------------------------------------------------------------------------------
@@ -868,7 +979,7 @@ pub fn run(line: &str) -> Option<(String, Vec<String>)> {
         Some(c) => c,
         None => return Some(("bad-case".into(), vec![])),
     };
-    let Case { class, f, o, img, wit, ok3: _, blocks } = case;
+    let Case { class: _, f, o, img, wit, ok3: _, blocks } = case;
     let mut msgs = vec![];
     let (wb, hb) = (img.blocks_w(), img.blocks_h());
     let nb = wb * hb;
@@ -890,21 +1001,33 @@ pub fn run(line: &str) -> Option<(String, Vec<String>)> {
         ports.push(if portable(f, blk, m) { '1' } else { '0' });
         hashes.push_str(&format!("{:08x}", hash_block(&dec[b])));
     }
-    // bytes of the emitted blocks at the places the discrete encoder model (Enc13.predictSingle) predicts
-    let pred = if (class == "grey" || class == "rand1" || class == "corner")
-        && img.prec == InPrec::Rgba8
-        && o.d == 'N'
-        && img.h == 4
-        && img.w == 4 * nb
-    {
+    // bytes of the emitted blocks at the places the discrete encoder model (Enc13.predictBlock) predicts
+    let pred = if img.prec == InPrec::Rgba8 {
         let mut parts = vec![];
         for b in 0..nb {
-            let c = &img.data[16 * b..16 * b + 4];
-            let pieces = predicted_pieces(f, o.q, [c[0], c[1], c[2], c[3]]);
+            let (bx, by) = (b % wb, b / wb);
+            let inside = in_image_mask(&img, bx, by);
+            let px: Vec<[u8; 4]> = (0..16)
+                .filter(|p| (inside >> p) & 1 == 1)
+                .map(|p| {
+                    let o = ((by * 4 + p / 4) * img.w + bx * 4 + p % 4) * 4;
+                    [img.data[o], img.data[o + 1], img.data[o + 2], img.data[o + 3]]
+                })
+                .collect();
+            let pieces = predicted_pieces(f, o, &px);
             if pieces.is_empty() {
                 parts.push("-".to_string());
             } else {
-                let blk = &blocks[b * bpb..(b + 1) * bpb];
+                let mut blk = blocks[b * bpb..(b + 1) * bpb].to_vec();
+                if matches!(f, F::Bc2 | F::Bc2p) {
+                    // explicit alpha of a partial block: blank the nibbles of the positions outside the image (which
+                    // pixel the padding repeats is outside the property; the model blanks the same nibbles)
+                    for p in 0..16 {
+                        if (inside >> p) & 1 == 0 {
+                            blk[p / 2] &= if p % 2 == 0 { 0xF0 } else { 0x0F };
+                        }
+                    }
+                }
                 parts.push(pieces.iter().map(|&(off, len)| format!("{}:{}", off, hex_encode(&blk[off..off + len]))).collect::<Vec<_>>().join(","));
             }
         }
@@ -912,7 +1035,14 @@ pub fn run(line: &str) -> Option<(String, Vec<String>)> {
     } else {
         "-".to_string()
     };
-    let res = format!("ok {nb} {shapes} {ports} {hashes} {pred}");
+    // BC7 header fields of the emitted blocks (the model prints the same fields read with its own reader, plus
+    // what its discrete rules allow for the input block; tools/propcfg/C13.py `equal` checks membership)
+    let b7 = if f == F::Bc7 && img.prec == InPrec::Rgba8 && o.d == 'N' {
+        (0..nb).map(|b| bc7_obs(&blocks[b * bpb..(b + 1) * bpb])).collect::<Vec<_>>().join(";")
+    } else {
+        "-".to_string()
+    };
+    let res = format!("ok {nb} {shapes} {ports} {hashes} {pred} {b7}");
 
     // oracle: fresh encode
     match lib_encode(f, o, &img) {
@@ -1095,6 +1225,216 @@ fn two_from_witness(f: F, wit: &[u8], rng: &mut Rng) -> Option<[[u8; 4]; 16]> {
         }
     }
     Some(out)
+}
+
+/// Cases for the discrete encoder rules that the tie compares with `Enc13.lean` (appended after the older classes,
+/// with their own PRNG, so that the older case lines stay what they were):
+/// `a16`  BC2 / BC2 premultiplied explicit alpha: all 256 alpha values, every nibble boundary (17k+8 | 17k+9), all 16
+///        nibbles in one block, partial blocks (border replication), F/N/H/U x dithering N/C (+ A/B: no prediction);
+/// `sx`   BC4S / BC5S constant channels at the SNORM extremes (0, 255 take the `closest` branch; 1, 254, 127, 128 do not);
+/// `b7op` opaque multi-colour BC7 blocks; `b7mix` opaque and translucent pixels mixed; `b7ca` constant RGB, varying
+///        alpha; `b7sa` constant alpha, varying colour (approximately grey: rotation forced to None, the constant-alpha
+///        guard of modes 4/5 is reached) — F/N/H and a few Unreasonable.
+fn gen_discrete(seed: u64, thorough: bool, specs: &mut Vec<Spec>) {
+    let mut rng = Rng::new(seed ^ 0xC13_D15C);
+    let scale: usize = if thorough { 12 } else { 1 };
+    let all_q = ['F', 'N', 'H', 'U'];
+
+    // ---- a16: BC2 explicit alpha
+    for &f in &[F::Bc2, F::Bc2p] {
+        for &q in &all_q {
+            for &d in &['N', 'C'] {
+                let o = Opts { q, m: 'U', d };
+                let cols: Vec<[u8; 4]> = (0..16).map(|_| rand_color(&mut rng)).collect();
+                // all 256 alpha values, 16 consecutive values per block
+                let img = block_row(16, |b, p| [cols[b][0], cols[b][1], cols[b][2], (16 * b + p) as u8]);
+                specs.push(Spec { class: "a16", f, o, img, wit: None });
+                // every rounding boundary of n4::from_f32: 17k+8 -> k, 17k+9 -> k+1 (k = 0..14), and 255
+                let img = block_row(15, |b, p| {
+                    let a = 17 * b + 8 + (p + p / 4) % 2;
+                    [cols[b][0], cols[b][1], cols[b][2], a as u8]
+                });
+                specs.push(Spec { class: "a16", f, o, img, wit: None });
+                // all 16 nibbles in one block (in order, reversed, scattered), over one colour and over noise
+                let perm: Vec<usize> = {
+                    let mut v: Vec<usize> = (0..16).collect();
+                    for i in (1..16).rev() {
+                        v.swap(i, rng.below(i as u64 + 1) as usize);
+                    }
+                    v
+                };
+                let mut r2 = Rng::new(rng.next());
+                let img = block_row(4, |b, p| {
+                    let nib = match b {
+                        0 => p,
+                        1 => 15 - p,
+                        _ => perm[p],
+                    };
+                    let a = (17 * nib) as u8;
+                    if b == 3 {
+                        [r2.below(256) as u8, r2.below(256) as u8, r2.below(256) as u8, a]
+                    } else {
+                        [cols[b][0], cols[b][1], cols[b][2], a]
+                    }
+                });
+                specs.push(Spec { class: "a16", f, o, img, wit: None });
+            }
+            // partial blocks: which pixel is repeated at the border shows in the alpha nibbles
+            for &(w, h) in &[(5usize, 6usize), (7, 3), (1, 1), (2, 7), (9, 5), (6, 10)] {
+                for _ in 0..scale.min(3) {
+                    let px: Vec<[u8; 4]> = (0..w * h)
+                        .map(|_| [rng.below(256) as u8, rng.below(256) as u8, rng.below(256) as u8, rng.below(256) as u8])
+                        .collect();
+                    specs.push(Spec { class: "a16", f, o: Opts { q, m: 'U', d: 'N' }, img: Img::from_rgba8(w, h, &px), wit: None });
+                }
+            }
+            // random alphas; with alpha dithering the bytes are not predicted (the case only exercises the rule's guard)
+            for &d in &['N', 'C', 'A', 'B'] {
+                for _ in 0..scale {
+                    let px: Vec<[u8; 4]> = (0..64)
+                        .map(|_| [rng.below(256) as u8, rng.below(256) as u8, rng.below(256) as u8, rng.below(256) as u8])
+                        .collect();
+                    specs.push(Spec { class: "a16", f, o: Opts { q, m: *rng.pick(&['U', 'P']), d }, img: Img::from_rgba8(8, 8, &px), wit: None });
+                }
+            }
+        }
+    }
+
+    // ---- sx: SNORM extremes, constant channels
+    for &f in &[F::Bc4s, F::Bc5s] {
+        for &q in &all_q {
+            for &d in &['N', 'C'] {
+                let o = Opts { q, m: 'U', d };
+                let rg: [(i32, i32); 8] = [(0, 255), (255, 0), (0, -1), (-1, 255), (1, 254), (128, 127), (255, 255), (0, 0)];
+                let mut r2 = Rng::new(rng.next());
+                let img = block_row(8, |b, _| {
+                    let v = |x: i32, r2: &mut Rng| if x < 0 { r2.below(256) as u8 } else { x as u8 };
+                    [v(rg[b].0, &mut r2), v(rg[b].1, &mut r2), r2.below(256) as u8, 255]
+                });
+                specs.push(Spec { class: "sx", f, o, img, wit: None });
+                // partial block of an extreme value
+                let img = Img::from_rgba8(3, 2, &vec![[255, 0, 7, 255]; 6]);
+                specs.push(Spec { class: "sx", f, o, img, wit: None });
+            }
+        }
+    }
+
+    // ---- BC7
+    let grey_noise = |rng: &mut Rng, amp: u64| -> [u8; 3] {
+        let g = rng.range(8, 225);
+        [(g + rng.below(amp)) as u8, (g + rng.below(amp)) as u8, (g + rng.below(amp)) as u8]
+    };
+    for &q in &all_q {
+        let o = Opts { q, m: 'U', d: 'N' };
+        let reps = if q == 'U' { 1 } else { 3 * scale };
+        for _ in 0..reps {
+            // b7op: opaque, not single-coloured
+            let (c0, c1) = (rand_color(&mut rng), rand_color(&mut rng));
+            let mut r2 = Rng::new(rng.next());
+            let img = block_row(6, |b, p| {
+                let (x, y) = ((p % 4) as u32, (p / 4) as u32);
+                let rgb: [u8; 3] = match b {
+                    0 => if r2.chance(1, 2) { [c0[0], c0[1], c0[2]] } else { [c1[0], c1[1], c1[2]] },
+                    1 => {
+                        let t = (x + 4 * y) * 17;
+                        [0, 1, 2].map(|c| ((c0[c] as u32 * (255 - t) + c1[c] as u32 * t) / 255) as u8)
+                    }
+                    2 => grey_noise(&mut r2, 7),
+                    3 => [r2.below(256) as u8, r2.below(64) as u8, (192 + r2.below(64)) as u8],
+                    4 => if p == 9 { [c1[0], c1[1], c1[2]] } else { [c0[0], c0[1], c0[2]] },
+                    _ => if x < 2 { [c0[0], (c0[1] as u64 / 2 + r2.below(9)) as u8, c0[2]] } else { [c1[0], (c1[1] as u64 / 2 + r2.below(9)) as u8, c1[2]] },
+                };
+                [rgb[0], rgb[1], rgb[2], 255]
+            });
+            specs.push(Spec { class: "b7op", f: F::Bc7, o, img, wit: None });
+
+            // b7mix: opaque and translucent pixels in one block
+            let lo = rng.below(255) as u8;
+            let mut r2 = Rng::new(rng.next());
+            let img = block_row(6, |b, p| {
+                let (x, y) = (p % 4, p / 4);
+                let left = [c0[0], (c0[1] as u64 / 2 + r2.below(6)) as u8, c0[2]];
+                let right = [c1[0], (c1[1] as u64 / 2 + r2.below(6)) as u8, c1[2]];
+                match b {
+                    // two clusters, one of them opaque: the two-subset mode 7 has an opaque subset
+                    0 => if x < 2 { [left[0], left[1], left[2], 255] } else { [right[0], right[1], right[2], (lo as u64 * (200 + r2.below(56)) / 255) as u8] },
+                    1 => if y < 2 { [left[0], left[1], left[2], (r2.below(255)) as u8] } else { [right[0], right[1], right[2], 255] },
+                    2 => [left[0], left[1], left[2], if r2.chance(1, 2) { 255 } else { r2.below(255) as u8 }],
+                    3 => [left[0], left[1], left[2], if p == 6 { 254 } else { 255 }],
+                    4 => { let g = grey_noise(&mut r2, 6); [g[0], g[1], g[2], if (x + y) % 2 == 0 { 255 } else { lo }] }
+                    _ => [r2.below(256) as u8, r2.below(256) as u8, r2.below(256) as u8, if x + y < 3 { 255 } else { 128 + r2.below(100) as u8 }],
+                }
+            });
+            specs.push(Spec { class: "b7mix", f: F::Bc7, o, img, wit: None });
+
+            // b7ca: constant RGB, varying alpha (narrow range: nothing forced unless grey; wide range: Rotation::None forced)
+            let base = rng.below(240) as u8;
+            let mut r2 = Rng::new(rng.next());
+            let img = block_row(6, |b, p| {
+                let a: u8 = match b {
+                    0 => base + r2.below(16) as u8,
+                    1 => r2.below(256) as u8,
+                    2 => (240 + r2.below(16)) as u8,
+                    3 => [0u8, 255][(p + p / 4) % 2],
+                    4 => r2.below(12) as u8,
+                    _ => (17 * p) as u8,
+                };
+                if b % 2 == 0 { [c0[0], c0[1], c0[2], a] } else { [c0[0], c0[0], c0[0], a] }
+            });
+            specs.push(Spec { class: "b7ca", f: F::Bc7, o, img, wit: None });
+        }
+        // b7sa: constant alpha, varying colour; every alpha value is reached over the qualities / repetitions
+        let step = if thorough { 1 } else if q == 'U' { 64 } else { 4 };
+        let start = match q { 'F' => 0, 'N' => 1, 'H' => 2, _ => 3 };
+        let mut a = start;
+        while a < 256 {
+            let mut r2 = Rng::new(rng.next());
+            let amp = *rng.pick(&[3u64, 7, 24]);
+            let (c0, c1) = (rand_color(&mut rng), rand_color(&mut rng));
+            let img = block_row(4, |b, p| {
+                let alpha = (if b == 3 { 255 } else { a }) as u8;
+                let rgb: [u8; 3] = match b {
+                    // approximately grey: `get_forced_rotation` returns Rotation::None, the constant-alpha guard is reached
+                    0 => grey_noise(&mut r2, amp.min(7)),
+                    1 => { let g = (p * 16) as u8; [g, g.saturating_add(3), g] }
+                    2 => if r2.chance(1, 2) { [c0[0], c0[1], c0[2]] } else { [c1[0], c1[1], c1[2]] },
+                    _ => grey_noise(&mut r2, amp),
+                };
+                [rgb[0], rgb[1], rgb[2], alpha]
+            });
+            specs.push(Spec { class: "b7sa", f: F::Bc7, o, img, wit: None });
+            a += step;
+        }
+    }
+    // b7g: the constant-alpha guard of modes 4 / 5 for EVERY alpha value.  Two grey levels that lie exactly on the
+    // 5-bit (mode 4) or 7-bit (mode 5) endpoint grid, so that the separate-alpha mode has colour error 0 and is
+    // emitted whenever mode 6 (shared p-bit) cannot be exact as well; grey => Rotation::None is forced.
+    for &(q, bits) in &[('F', 5u32), ('N', 5), ('N', 7), ('H', 7), ('U', 7)] {
+        let o = Opts { q, m: 'U', d: 'N' };
+        let stride = if q == 'U' { 16 } else { 1 };
+        for a0 in (0..256usize).step_by(4 * stride) {
+            let grid = |v: u64| -> u8 {
+                if bits == 5 { ((v << 3) | (v >> 2)) as u8 } else { ((v << 1) | (v >> 6)) as u8 }
+            };
+            // green offset in grid steps (7-bit grid only): 3 steps = 6 or 7 < COLOR_VARIANCE_THRESHOLD (still forced),
+            // 4 steps = 8 or 9 (no longer "approximately grey": nothing forced, Rotation::None is skipped)
+            let goff: [u64; 4] = if bits == 7 { [0, 3, 4, 0] } else { [0; 4] };
+            let levels: Vec<(u64, u64)> = (0..4)
+                .map(|_| loop {
+                    let (u, v) = (rng.below((1 << bits) - 4), rng.below((1 << bits) - 4));
+                    if u != v {
+                        break (u, v);
+                    }
+                })
+                .collect();
+            let mut r2 = Rng::new(rng.next());
+            let img = block_row(4, |b, p| {
+                let l = if p == 0 || r2.chance(1, 2) { levels[b].0 } else { levels[b].1 };
+                [grid(l), grid(l + goff[b]), grid(l), (a0 + b * stride) as u8]
+            });
+            specs.push(Spec { class: "b7g", f: F::Bc7, o, img, wit: None });
+        }
+    }
 }
 
 pub fn gen(seed: u64, thorough: bool) -> Vec<String> {
@@ -1348,5 +1688,6 @@ pub fn gen(seed: u64, thorough: bool) -> Vec<String> {
         }
     }
     let _ = n;
+    gen_discrete(seed, thorough, &mut specs);
     specs.par_iter().map(line_of).collect()
 }
